@@ -6,7 +6,7 @@
              ∧ HistOk s    dict.full ≤ bytes in the history
              ∧ RepsOk s    rep-register invariant (Lemmas/C03Reps.lean)
              ∧ PosInv s.dp dictionary position invariant (Lemmas/C03Dict.lean)
-    PendOk s :=  a pending SEQ_SHORTREP / SEQ_COPY has `rep0 < dict.full`
+    PendOk s :=  a pending SEQ_SHORTREP / SEQ_COPY has `rep0 < dict.full`, a pending SEQ_COPY has `len ≤ MATCH_LEN_MAX`
 
   and the invariant holds again after the call whenever decoding can continue from the resulting state (the state is not
   "stuck", and the call did not end with an accepted end-of-payload marker, which leaves `rep0 = UINT32_MAX`).
@@ -33,8 +33,11 @@ structure Live (s : St) : Prop where
   reps : RepsOk s
   pos : PosInv s.dp
 
-/-- a pending output step that uses `rep0` has a valid distance -/
-def PendOk (s : St) : Prop := usesRep0 s.pending → s.rep0 < s.dp.full
+/-- what an output step needs: a valid distance if it uses `rep0`, and a copy length within `MATCH_LEN_MAX` -/
+def WriteOk (p : Pending) (s : St) : Prop := (usesRep0 p → s.rep0 < s.dp.full) ∧ CopyLen p
+
+/-- the pending output step of a state is in order -/
+def PendOk (s : St) : Prop := WriteOk s.pending s
 
 theorem ProbsOk.congr {s t : St} (h : ProbsOk s) (e1 : t.probs.size = s.probs.size) (e2 : t.lc = s.lc) (e3 : t.lp = s.lp)
     (e4 : t.pb = s.pb) (e5 : t.state = s.state) : ProbsOk t :=
@@ -55,13 +58,12 @@ theorem Live.of_fc {s t : St} (h : Live s) (hf : Fc s t) (hp : t.probs = s.probs
 
 theorem decodeSymbol_acc (ev : Bool) (s : St) (h : Live s) :
     decodeSymbolC ev s = liftR (decodeSymbol ev s)
-    ∧ ∀ act s', decodeSymbol ev s = .ok act s' →
-        Live s' ∧ (usesRep0 act → s'.rep0 < s'.dp.full) ∧ s'.allowEopm = s.allowEopm := by
-  have hsim := sim_decodeSymbol ev ⟨s.probs.size, s.lc, s.lp, s.dp.full, s.hist.size⟩ s.state s.rep0 s.pb
-    h.probs.size h.probs.lclp h.probs.pb h.probs.state h.hist (fun h7 => (ROv.lt h.reps (h.reps.1 h7)).1)
+    ∧ ∀ act s', decodeSymbol ev s = .ok act s' → Live s' ∧ WriteOk act s' ∧ s'.allowEopm = s.allowEopm := by
+  have hsim := sim_decodeSymbol ev ⟨s.probs.size, s.lc, s.lp, s.dp, s.hist.size⟩ s.state s.rep0 s.pb
+    h.probs.size h.probs.lclp h.probs.pb h.probs.state h.pos h.hist (fun h7 => (ROv.lt h.reps (h.reps.1 h7)).1)
     s ⟨⟨rfl, rfl, rfl, rfl, rfl⟩, rfl, rfl, rfl⟩
   refine ⟨hsim.1, fun act s' e => ?_⟩
-  obtain ⟨⟨k1, k2, k3, _, k5⟩, kst⟩ := hsim.2 act s' e
+  obtain ⟨⟨⟨k1, k2, k3, _, k5⟩, kst⟩, kl⟩ := hsim.2 act s' e
   have hfr := (sat_decodeSymbol ev s).1
   rw [e] at hfr
   have hfr' : Fr s s' := hfr
@@ -70,7 +72,7 @@ theorem decodeSymbol_acc (ev : Bool) (s : St) (h : Live s) :
   have k2' : s'.lc = s.lc := k2
   have k3' : s'.lp = s.lp := k3
   have k5' : s'.hist.size = s.hist.size := k5
-  refine ⟨⟨⟨?_, ?_, ?_, kst⟩, ?_, hro.1, ?_⟩, hro.2.2, hfr'.allowEopm⟩
+  refine ⟨⟨⟨?_, ?_, ?_, kst⟩, ?_, hro.1, ?_⟩, ⟨hro.2.2, kl⟩, hfr'.allowEopm⟩
   · rw [k1', k2', k3']; exact h.probs.size
   · rw [k2', k3']; exact h.probs.lclp
   · rw [hfr'.lclppb.2.2]; exact h.probs.pb
@@ -177,12 +179,12 @@ theorem live_advance {s t : St} (n : Nat) (h : Live s) (hn : n ≤ s.dp.avail)
   unfold HistOk at this
   omega
 
-theorem doWrite_acc (p : Pending) (s : St) (h : Live s) (hr : usesRep0 p → s.rep0 < s.dp.full) :
+theorem doWrite_acc (p : Pending) (s : St) (h : Live s) (hw : WriteOk p s) :
     doWriteC p s = liftR (doWrite p s)
     ∧ Live (resSt (doWrite p s)) ∧ (resSt (doWrite p s)).rep0 = s.rep0 ∧ s.dp.full ≤ (resSt (doWrite p s)).dp.full
     ∧ (resSt (doWrite p s)).allowEopm = s.allowEopm
-    ∧ (∀ p' s', doWrite p s = .error (.outFull p') s' → usesRep0 p' → usesRep0 p) := by
-  refine ⟨doWriteC_eq p s h.hist hr, ?_⟩
+    ∧ (∀ p' s', doWrite p s = .error (.outFull p') s' → (usesRep0 p' → usesRep0 p) ∧ CopyLen p') := by
+  refine ⟨doWriteC_eq p s h.pos h.hist hw.1 hw.2, ?_⟩
   have one : s.dp.pos ≠ s.dp.limit → 1 ≤ s.dp.avail := by
     intro hne
     unfold DictPos.avail
@@ -198,7 +200,7 @@ theorem doWrite_acc (p : Pending) (s : St) (h : Live s) (hr : usesRep0 p → s.r
     · refine ⟨h, rfl, Nat.le_refl _, rfl, fun p' s' e => ?_⟩
       injection e with e1 _
       injection e1 with e1
-      rw [← e1]; exact id
+      rw [← e1]; exact ⟨id, trivial⟩
     · next hne =>
       have hne' : s.dp.pos ≠ s.dp.limit := by simpa using hne
       have := live_advance (t := s.put (UInt8.ofNat sym)) 1 h (one hne') rfl rfl rfl rfl rfl rfl rfl rfl rfl rfl
@@ -210,7 +212,7 @@ theorem doWrite_acc (p : Pending) (s : St) (h : Live s) (hr : usesRep0 p → s.r
     · refine ⟨h, rfl, Nat.le_refl _, rfl, fun p' s' e => ?_⟩
       injection e with e1 _
       injection e1 with e1
-      rw [← e1]; exact id
+      rw [← e1]; exact ⟨id, trivial⟩
     · next hne =>
       have hne' : s.dp.pos ≠ s.dp.limit := by simpa using hne
       have := live_advance (t := s.put (s.dictGet s.rep0)) 1 h (one hne') rfl rfl rfl rfl rfl rfl rfl rfl rfl rfl
@@ -221,8 +223,14 @@ theorem doWrite_acc (p : Pending) (s : St) (h : Live s) (hr : usesRep0 p → s.r
     have := live_advance (t := s.repeatN (s.dp.repeatLeft len)) (s.dp.repeatLeft len) h
       (by unfold DictPos.repeatLeft; exact Nat.min_le_left _ _) rfl rfl rfl rfl rfl rfl rfl rfl rfl rfl
       (by simp [St.repeatN, copyBytes_size])
+    have hlen : len ≤ LzDict.MATCH_LEN_MAX := hw.2
     split
-    · exact ⟨this.1, rfl, this.2, rfl, fun p' s' e => fun _ => trivial⟩
+    · refine ⟨this.1, rfl, this.2, rfl, fun p' s' e => ⟨fun _ => trivial, ?_⟩⟩
+      injection e with e1 _
+      injection e1 with e1
+      rw [← e1]
+      show len - s.dp.repeatLeft len ≤ LzDict.MATCH_LEN_MAX
+      omega
     · exact ⟨this.1, rfl, this.2, rfl, fun p' s' e => by cases e⟩
 
 /-! ### the main loop -/
@@ -230,7 +238,7 @@ theorem doWrite_acc (p : Pending) (s : St) (h : Live s) (hr : usesRep0 p → s.r
 /-- what a run guarantees about the state it ends in, per way out. `N` = "the end-of-payload marker is excluded". -/
 def StepPost {α : Type} (N : Prop) : EStateM.Result Exit St α → Prop
   | .ok _ s' => Live s'
-  | .error (.outFull p) s' => Live s' ∧ (usesRep0 p → s'.rep0 < s'.dp.full)
+  | .error (.outFull p) s' => Live s' ∧ WriteOk p s'
   | .error .streamEnd s' => N → Live s'
   | _ => True
 
@@ -327,10 +335,11 @@ theorem symStep_acc (ev mf : Bool) (s : St) (h : Live s) :
         refine ⟨trivial, ?_, (fun a s' e' => by cases e'), hl3.hist⟩
         cases e with
         | outFull p =>
-          refine ⟨hl3, fun hu => ?_⟩
+          have hpp := hw.2.2.2.2.2 p s3 rfl
+          refine ⟨hl3, fun hu => ?_, hpp.2⟩
           have h0 : s3.rep0 = s2.rep0 := hw.2.2.1
           have hF : s2.dp.full ≤ s3.dp.full := hw.2.2.2.1
-          have := hr2 (hw.2.2.2.2.2 p s3 rfl hu)
+          have := hr2.1 (hpp.1 hu)
           rw [h0]; omega
         | streamEnd => exact fun _ => hl3
         | needInput => trivial
@@ -416,7 +425,7 @@ theorem lzmaRun_acc (s : St) (h : Live s) (hp : PendOk s) :
     rw [← hs1]
     refine ⟨h.probs.congr rfl rfl rfl rfl rfl, h.hist, repsOk_congr h.reps rfl rfl rfl rfl rfl rfl, ?_⟩
     exact posInv_limit h.pos _ hcl.1 (Nat.le_trans hcl.2 h.pos.limit_le_size)
-  have hr1 : usesRep0 s.pending → s1.rep0 < s1.dp.full := by rw [← hs1]; exact hp
+  have hr1 : WriteOk s.pending s1 := by rw [← hs1]; exact hp
   have a1 : s1.allowEopm = s.allowEopm := by rw [← hs1]
   have hw := doWrite_acc s.pending s1 l1 hr1
   show EStateM.bind (doWriteC s.pending) _ s1 = liftR (EStateM.bind (doWrite s.pending) _ s1)
@@ -432,10 +441,11 @@ theorem lzmaRun_acc (s : St) (h : Live s) (hp : PendOk s) :
     refine ⟨trivial, ?_, hl2.hist⟩
     cases e with
     | outFull p =>
-      refine ⟨hl2, fun hu => ?_⟩
+      have hpp := hw.2.2.2.2.2 p s2 rfl
+      refine ⟨hl2, fun hu => ?_, hpp.2⟩
       have h0 : s2.rep0 = s1.rep0 := hw.2.2.1
       have hF : s1.dp.full ≤ s2.dp.full := hw.2.2.2.1
-      have := hr1 (hw.2.2.2.2.2 p s2 rfl hu)
+      have := hr1.1 (hpp.1 hu)
       rw [h0]; omega
     | streamEnd => exact fun _ => hl2
     | needInput => trivial
@@ -491,7 +501,7 @@ theorem lzmaCall_acc (s : St) (h : AccSt s) :
       have acc0 : AccSt s0 := by
         right
         refine ⟨hl.of_fc hfc0 hpr, ?_⟩
-        unfold PendOk
+        unfold PendOk WriteOk
         rw [hfc0.pending, hfc0.core.2.1, hfc0.dp]; exact hpd
       exact ⟨by first | rfl | trivial, fun _ => acc0, fun _ => acc0, fun _ => (hl.of_fc hfc0 hpr).hist⟩
     | ok b s0 =>
@@ -499,7 +509,7 @@ theorem lzmaCall_acc (s : St) (h : AccSt s) :
       have hfc0 : Fc s s0 := hfc
       have hl0 : Live s0 := hl.of_fc hfc0 hpr
       have hpd0 : PendOk s0 := by
-        unfold PendOk
+        unfold PendOk WriteOk
         rw [hfc0.pending, hfc0.core.2.1, hfc0.dp]; exact hpd
       cases b with
       | false =>
@@ -534,8 +544,8 @@ theorem lzmaCall_acc (s : St) (h : AccSt s) :
             right
             have hl' : Live s' := hpost
             refine ⟨fin hl', ?_⟩
-            unfold PendOk lzmaFinish
-            simp [exitRet, exitPending, usesRep0]
+            unfold PendOk WriteOk lzmaFinish
+            simp [exitRet, exitPending, usesRep0, CopyLen]
           | error e s' =>
             cases e with
             | needInput => left; unfold lzmaFinish; simp [exitRet, exitPending]
@@ -543,7 +553,7 @@ theorem lzmaCall_acc (s : St) (h : AccSt s) :
             | fuel => left; unfold lzmaFinish; simp [exitRet, exitPending]
             | outFull p =>
               right
-              have hl' : Live s' ∧ (usesRep0 p → s'.rep0 < s'.dp.full) := hpost
+              have hl' : Live s' ∧ WriteOk p s' := hpost
               refine ⟨fin hl'.1, ?_⟩
               have hpend : (lzmaFinish (.error (.outFull p) s') s0.dp.limit s0.hist.size s0.uncomp).2.pending = p := by
                 unfold lzmaFinish
@@ -551,7 +561,7 @@ theorem lzmaCall_acc (s : St) (h : AccSt s) :
                 have key : ∀ c : Bool, (if ((if c then Ret.dataError else Ret.ok) == Ret.streamEnd) then Pending.none else p) = p := by
                   intro c; cases c <;> rfl
                 exact key _
-              unfold PendOk
+              unfold PendOk WriteOk
               rw [hpend, hfld.2.1, hfld.2.2.2.2.2.1]
               exact hl'.2
             | streamEnd =>
@@ -563,8 +573,8 @@ theorem lzmaCall_acc (s : St) (h : AccSt s) :
               · right
                 have hl' : Live s' := hpost (hN hc)
                 refine ⟨fin hl', ?_⟩
-                unfold PendOk lzmaFinish
-                simp [exitRet, exitPending, usesRep0]
+                unfold PendOk WriteOk lzmaFinish
+                simp [exitRet, exitPending, usesRep0, CopyLen]
         refine ⟨fun hne => key False (fun hf => hf.elim) (Or.inl hne), fun hno => ?_, fun _ => ?_⟩
         rotate_left
         · have fs := lzmaFinish_state (lzmaRun s0) s0.dp.limit s0.hist.size s0.uncomp
